@@ -8,6 +8,7 @@ import numpy as np
 import z3
 
 from sx.arr import SArr
+from sx.rt import reraise_model_gap  # noqa: F401
 from sx.rt import And, If, Implies, PathAbort, Unsupported
 
 import funtracks.import_export._tracks_builder as tb
@@ -93,6 +94,7 @@ def harness(ctx, cfg):
     except Unsupported:
         raise
     except Exception as e:
+        reraise_model_gap(e)
         ctx.tag(f"raised:{type(e).__name__}")
         ctx.oblige("C13.returns_without_error", False, "C13")
         return
@@ -165,6 +167,7 @@ def replay(f):
         else:
             out = relabel_segmentation(arr, g, np.array(cn), np.array(cs), np.array(ct))
     except Exception as e:
+        reraise_model_gap(e)
         return f["obligation"] == "C13.returns_without_error", f"nodes={cn} seg_ids={cs} times={ct} raised {type(e).__name__}: {e}"
     shift = 1 if 0 in cn else 0
     if sorted(g.nodes) != sorted(c + shift for c in cn):
